@@ -420,7 +420,7 @@ def main(replay=None):
         for name, c in wit: cases.append(c); labels.append("witness:" + name)
         nmesh = 130 if quick else 1500
         for k in range(nmesh):
-            tags, vs, ts = gen_mesh(rng, big=(not quick and k % 40 == 0))   # 320-triangle meshes cost the extracted model minutes (unary nat): thorough tier only
+            tags, vs, ts = gen_mesh(rng, big=(k % 16 == 0))   # icosphere/octasphere level 2 (320 / 512 triangles)
             flags = 0 if ("flipped" in tags and rng.random() < 0.6) else 1
             lab = ",".join(tags)
             risky = nan_normal_risk(vs, ts)
@@ -437,6 +437,19 @@ def main(replay=None):
                     cases.append(case_concat(rng.randint(0, 3), 1, len(cases), (vs, ts), (v2, t2))); labels.append("concat:" + lab)
             if k % 5 == 0:
                 cases.append(case_convert(rng.randint(0, 3), rng.randint(0, 3), flags, len(cases), vs, ts)); labels.append("convert:" + lab)
+        # level-3 spheres (642 vertices / 1280 triangles; 258 / 512), consistent windings (the fill itself is exercised on level <= 2)
+        for n, (mk, lvl) in enumerate([(models.icosphere, 3), (models.octasphere, 3)] if quick else [(models.icosphere, 3), (models.octasphere, 3), (models.octasphere, 4)]):
+            vs, ts = mk(lvl); mag = 10.0 ** rng.randint(-3, 3)
+            vs = [tuple(float(c) * mag * (1 + 1e-4 * rng.random()) for c in v) for v in vs]
+            if n % 2: ts = [(a, c_, b) for a, b, c_ in ts]
+            for fmt in ((0, 3) if n == 0 else (1, 2)):
+                cases.append(case_roundtrip(fmt, 1, vs, ts)); labels.append("roundtrip:level3,%s" % ("inward" if n % 2 else "outward"))
+            cases.append(case_writer(rng.randint(0, 4), 1, len(cases), vs, ts)); labels.append("writer:level3")
+        # level-2 sphere with every 7th triangle flipped, written unrepaired: the readers' flood fill on 320 triangles
+        vs, ts = models.icosphere(2); vs = [tuple(float(c) * 87.3 for c in v) for v in vs]; ts = list(ts)
+        for i in range(rng.randint(0, 6), len(ts), 7): a, b, c_ = ts[i]; ts[i] = (b, a, c_)
+        for fmt in (0, 1):
+            cases.append(case_roundtrip(fmt, 0, vs, ts)); labels.append("roundtrip:ico2,flipped")
         # tool-level round trips through om_mesh_convert: closed and open surfaces, both windings, all format pairs over a run
         chains = [(0, 1, 0), (1, 0, 1), (0, 2, 0), (2, 3, 2), (3, 0, 3), (1, 3, 1), (0, 3, 1), (2, 1, 0), (3, 2, 0), (1, 2, 3)]
         shapes = [("closed", lambda: models.icosphere(rng.choice([0, 1]))), ("closed", lambda: models.octasphere(1)),
